@@ -69,6 +69,11 @@ def U4():
                      Node('x', 'R', 'x', True)], 'U4')
 
 
+def U4S():
+    """siblings below a shared ancestor (concurrent creators of different children)"""
+    return Universe([Node('a', 'R', 'a'), Node('a_b', 'a', 'b'), Node('a_c', 'a', 'c'), Node('a_b_d', 'a_b', 'd'), Node('x', 'R', 'x', True)], 'U4S')
+
+
 def U3():
     return Universe([Node('a', 'R', 'a'), Node('ab', 'R', 'ab'), Node('a_b', 'a', 'b'), Node('x', 'R', 'x', True)], 'U3')
 
@@ -91,7 +96,7 @@ def U8():
                      Node('a_b_c_d', 'a_b_c', 'd'), Node('x', 'R', 'x', True), Node('x_y', 'x', 'y', True)], 'U8')
 
 
-UNIVERSES = {'U5': U5, 'U4': U4, 'U3': U3, 'U8': U8, 'USYM': USYM, 'USYMD': USYMD}
+UNIVERSES = {'U5': U5, 'U4': U4, 'U3': U3, 'U8': U8, 'USYM': USYM, 'USYMD': USYMD, 'U4S': U4S}
 
 # a shape is a tuple of (var, kind) with kind in 'd' / 'f' for existing nodes, parents first
 
